@@ -444,6 +444,77 @@ def mkCombine {D : Type} (tup : List D → D) (args : List (Option (Variable D))
 
 end withNames
 
+/-! ## specification vocabulary (executable, so that the driver can report it and the harness compare)
+
+The hypotheses of the theorems of `Props/C14.lean` as Boolean checks; `Lemmas/C14.lean` proves that a check
+that returns `true` implies the corresponding proposition. -/
+section spec
+variable (names : List String)
+
+/-- the composition history a variable context carries: its `compose` list, else its `type` -/
+def hist (a : Slots) : List V :=
+  match getSlot a (kCompose names) with
+  | some (.seq false l) => l
+  | some _ => []
+  | none =>
+    match getSlot a (kType names) with
+    | some t => [t]
+    | none => []
+
+/-- key number `j` is the slot of one of the strings in `c` -/
+def inT (c : List V) (j : Nat) : Bool :=
+  c.any (fun t => match t with | .str s => key names s == j | _ => false)
+
+/-- `context.variable` of a flow value (`None` for a value without context) -/
+def cvarOf {D : Type} (x : Value D) : Option V :=
+  getSlot (getDataContext names x).2 (kVariable names)
+
+/-- the composition history the value already carries -/
+def preHist (cv : Option V) : List V :=
+  match cv with
+  | some (.dict p) => hist names p
+  | _ => []
+
+/-- all types of a run: those the value carries, then those of the chain's variables, in order -/
+def allTypes (cv : Option V) (as : List Slots) : List V :=
+  preHist names cv ++ as.flatMap (hist names)
+
+def isTypeListB (l : List V) : Bool :=
+  l.all (fun t => match t with | .str _ => true | _ => false)
+
+/-- `VarWF`: a dictionary over the alphabet whose `compose`, if present, is a non-empty list of strings and
+whose `type`, if present, is a non-empty string -/
+def varWFb (a : Slots) : Bool :=
+  a.length == names.length &&
+  (match getSlot a (kCompose names) with
+   | none => true
+   | some (.seq false l) => !l.isEmpty && isTypeListB l
+   | some _ => false) &&
+  (match getSlot a (kType names) with
+   | none => true
+   | some (.str s) => s != ""
+   | some _ => false)
+
+/-- `NoClash`: a key of `x` that is named like a type in `T` is one of the types `x` lists itself -/
+def noClashB (T : List V) (x : Slots) : Bool :=
+  (List.range names.length).all (fun j => !(inT names T j) || !(getSlot x j).isSome || inT names (hist names x) j)
+
+/-- `ChainWF` -/
+def chainWFb (cv : Option V) (as : List Slots) : Bool :=
+  let T := allTypes names cv as
+  (match cv with
+   | some (.dict p) => varWFb names p && noClashB names T p
+   | _ => true) &&
+  as.all (fun a => varWFb names a && noClashB names T a && (getSlot a (kName names)).isSome) &&
+  !(inT names T (kCompose names))
+
+/-- `NamesOK`: no duplicates, the reserved words the theorems speak about are keys -/
+def namesOKb : Bool :=
+  decide names.Nodup && names.contains "name" && names.contains "type" && names.contains "compose" &&
+  names.contains "variable"
+
+end spec
+
 /-! ## variable expressions (what the harness builds on both sides) -/
 
 /-- a constructor expression; `other` is an object that is not a `Variable` -/
